@@ -358,7 +358,7 @@ fn fingerprint(case: &Case) -> u64 {
 pub fn run(env: &Env) -> i32 {
     let t0 = Instant::now();
     let thorough = !env.quick();
-    let n = if thorough { 1_200_000 } else { 40_000 };
+    let n = if thorough { 800_000 } else { 40_000 };
     let n = std::env::var("VERIF_RUNS").ok().and_then(|s| s.parse().ok()).unwrap_or(n);
     let seed = env.seed;
 
